@@ -18,7 +18,7 @@ pub struct Failing {
 
 /// Runs the scenario and returns the first violation of `property`.
 pub fn run_and_judge(property: &str, scn: &Scenario, trace: bool) -> Result<(RunRecord, Vec<Violation>), String> {
-    let opts = ExecOpts { trace, step_budget: 30_000, baseline_step_cap: 8_000 };
+    let opts = ExecOpts { trace, step_budget: 60_000, baseline_step_cap: 8_000 };
     match execute(scn, opts) {
         RunOutcome::HarnessError(e) => Err(e),
         RunOutcome::Done(rec) => {
